@@ -447,6 +447,13 @@ def run(rep, tier):
     # ---- R03.15 (shared with C12 R12.9)
     from .C12 import eventless_by_type_bit
     eventless_by_type_bit(rep, 'R03.15')
+    # ---- R03.16 the fast engine's parallel-completion check: a final state stands for its parent only (the large engine asks isInFinal per region)
+    rep.rule('R03.16', 'both engines raise done.state.<parallel> for the same configurations: in the fast engine\'s check an active final state clears its parent from the set of unfinished states, not all of its ancestors (the large engine asks each region whether one of ITS children is an active final)')
+    from . import C04
+    F16, site16 = C04.fast_engine_updates(fb)
+    wide16 = [k_ for k_ in F16 if k_[0] in ('AND_NOT', 'XOR') and len(k_[1]) == 2 and k_[1][0] == 'tmp_states' and k_[1][1].endswith('.ancestors')]
+    rep.check(not wide16, 'R03.16', 'FastMicroStep|a final child vouches for all its ancestors', site16.get(wide16[0]) if wide16 else 'src/uscxml/interpreter/FastMicroStep.cpp', 'in FastMicroStep::step an active final state %s' % (
+        'clears its parent only' if not wide16 else 'clears ALL its ancestors from the unfinished set (%s): with P{A{a1,af}, B{B1{b11,b1f}, bf}} and af, b1f active the fast engine raises done.state.P, the large engine does not' % ', '.join('%s(%s)' % (k_[0], ', '.join(k_[1])) for k_ in wide16)))
     # ---- R03.12 .. R03.14
     audit_rules_c03(rep, fb)
     # ---- R03.11
